@@ -244,31 +244,32 @@ theorem resolve_good (self : Ymd) (h : self.WF) (yf df : Bool) : GoodR (fun _ =>
   · exact resolveRest_good _ _ _ _
 
 theorem assignHms_good (cls : Char → CClass) (res : Res) (v : Token) (hms : Nat) :
-    GoodR (fun r => r.weekday = res.weekday) (assignHms cls res v hms) := by
+    GoodR (fun r => r.weekday = res.weekday ∧ r.ampm = res.ampm) (assignHms cls res v hms) := by
   unfold assignHms
   refine goodR_bind (toDecimal_good cls v) (fun value _ => ?_)
   repeat' first
-    | exact goodR_pure rfl
+    | exact goodR_pure ⟨rfl, rfl⟩
     | refine goodR_bind (rem1_good _) (fun _ _ => ?_)
     | refine goodR_bind (parseMinSec_good _) (fun _ _ => ?_)
     | refine goodR_bind (parsems_good _ _) (fun _ _ => ?_)
     | split
 
 /-- what `_parse_numeric_token` guarantees about its outputs -/
-def NumPost (res : Res) (r : Nat × Ymd × Res) : Prop := r.2.1.WF ∧ r.2.2.weekday = res.weekday
+def NumPost (res : Res) (r : Nat × Ymd × Res) : Prop :=
+  r.2.1.WF ∧ r.2.2.weekday = res.weekday ∧ r.2.2.ampm = res.ampm
 
 theorem dayOrFail_good (fuzzy : Bool) (ymd : Ymd) (h : ymd.WF) (res : Res) (v : Dec) :
     GoodR (NumPost res) (dayOrFail fuzzy ymd res v) := by
   unfold dayOrFail
   refine goodR_bind (couldBeDay_good _ _) (fun _ _ => ?_)
   split
-  · refine goodR_bind (appendDec_good _ h _ _) (fun _ h' => goodR_pure ⟨h', rfl⟩)
+  · refine goodR_bind (appendDec_good _ h _ _) (fun _ h' => goodR_pure ⟨h', rfl, rfl⟩)
   · split
     · exact goodR_throwVE
-    · exact goodR_pure ⟨h, rfl⟩
+    · exact goodR_pure ⟨h, rfl, rfl⟩
 
 macro "numgood" : tactic => `(tactic| repeat' first
-    | exact goodR_pure ⟨by assumption, by first | rfl | assumption | (simp; assumption)⟩
+    | exact goodR_pure ⟨by assumption, by first | rfl | (simp only [*]) | (simp; simp [*]), by first | rfl | (simp only [*]) | (simp; simp [*])⟩
     | exact goodR_throwVE
     | exact dayOrFail_good _ _ (by assumption) _ _
     | refine goodR_bind (pyInt_good _ _) (fun _ _ => ?_)
@@ -310,7 +311,7 @@ theorem numSep_good (cls : Char → CClass) (info : Info) (tokens : List Token) 
     (h : ymd.WF) (res : Res) : GoodR (NumPost res) (numSep cls info tokens idx v ymd res) := by
   unfold numSep
   repeat' first
-    | exact goodR_pure ⟨by assumption, rfl⟩
+    | exact goodR_pure ⟨by assumption, rfl, rfl⟩
     | refine goodR_bind (tokAt_good _ _) (fun _ _ => ?_)
     | refine goodR_bind (appendTok_good _ _ (by assumption) _ _) (fun _ _ => ?_)
     | refine goodR_bind (sepSecond_good _ _ _ (by assumption) _) (fun _ _ => ?_)
@@ -469,7 +470,7 @@ theorem parseStep_good (cls : Char → CClass) (info : Info) (hinfo : info.WF) (
   · refine goodR_bind (parseNumericToken_good _ _ _ _ _ _ h.ymd _) (fun r hr => ?_)
     refine goodR_pure ⟨hr.1, h.len, h.skipped, ?_⟩
     intro w hw
-    exact h.wd w (by rw [← hr.2]; exact hw)
+    exact h.wd w (by rw [← hr.2.1]; exact hw)
   · split
     · rename_i wd hwd
       refine goodR_pure ⟨h.ymd, h.len, h.skipped, ?_⟩
